@@ -1,11 +1,170 @@
 import Oracle.Util
+import Wz.Model.Config
+import Wz.Gen.ConfigEffects
+/-
+Oracle topic c19: the configuration heap model driven by the regenerated effect table.
+
+  c19 reset                                   -> ok
+  c19 new <kind> f=<init> …                   -> <node id>      init: s:<v> | l:<cap>|<n>|v1,v2 | m:<n>|k~i,k~i
+  c19 call <recv id> <Method> [hints=field~cap,…] p=<arg> …  -> <node id> | refuse     arg: s:<v> | l:<n>|v1,v2
+  c19 dump                                    -> canonical dump of every node (backing arrays numbered by first appearance)
+  c19 guest <id>                              -> args=… env=… fs=…   (what a guest instantiated with the node sees)
+  c19 safe                                    -> all-safe | unsafe:<recv.Method>,…
+  c19 sig <recv> <Method>                     -> params=a,b derived=c flags=f delegate=T | unknown
+  c19 refwriters                              -> methods whose effects write through a slice/map
+  c19 methods                                 -> <recv.Method>,…
+Values never contain space , ; ~ | (the harness pools guarantee it).
+-/
 namespace Oracle.C19
-open Oracle
+open Oracle Wz.Model.Config
 
-/-- Topic state (stub: no model behind this topic yet). -/
-abbrev St := Unit
-def init : St := ()
+abbrev St := State
+def init : St := {}
 
-def step (st : St) (_args : List String) : St × String := (st, "bad-op")
+def tbl : List Method := Wz.Gen.ConfigEffects.methods
+
+def splitList (n : Nat) (s : String) : List String := if n == 0 then [] else s.splitOn ","
+
+/-- `k=rest` -/
+def splitEq (s : String) : Option (String × String) :=
+  match s.splitOn "=" with
+  | k :: v :: more => some (k, "=".intercalate (v :: more))
+  | _ => none
+
+def parseInit (s : String) : Option Init :=
+  if s.startsWith "s:" then some (.scalar (s.drop 2).toString)
+  else if s.startsWith "l:" then
+    match ((s.drop 2).toString).splitOn "|" with
+    | [cap, n, vs] => do
+      let cap ← parseNat cap
+      let n ← parseNat n
+      let l := splitList n vs
+      if l.length == n then some (.slice l cap) else none
+    | _ => none
+  else if s.startsWith "m:" then
+    match ((s.drop 2).toString).splitOn "|" with
+    | [n, kvs] => do
+      let n ← parseNat n
+      let l := splitList n kvs
+      let kv ← l.mapM (fun e => match e.splitOn "~" with
+        | [k, v] => (parseNat v).map (fun x => (k, x))
+        | _ => none)
+      if kv.length == n then some (.map kv) else none
+    | _ => none
+  else none
+
+def parseArg (s : String) : Option ArgV :=
+  if s.startsWith "s:" then some (.one (s.drop 2).toString)
+  else if s.startsWith "l:" then
+    match ((s.drop 2).toString).splitOn "|" with
+    | [n, vs] => do
+      let n ← parseNat n
+      let l := splitList n vs
+      if l.length == n then some (.many l) else none
+    | _ => none
+  else none
+
+def parseArgs (ws : List String) : Option Args :=
+  ws.foldlM (fun (a : Args) w => do
+    let (k, v) ← splitEq w
+    if k == "hints" then
+      let hs ← (if v == "" then some [] else (v.splitOn ",").mapM (fun e => match e.splitOn "~" with
+        | [f, n] => (parseNat n).map (fun x => (f, x))
+        | _ => none))
+      pure { a with hints := hs }
+    else
+      let x ← parseArg v
+      pure { a with vals := a.vals ++ [(k, x)] }) {}
+
+/-- number object pointers by first appearance -/
+def canon (seen : List Nat) (p : Nat) : List Nat × Nat :=
+  match seen.idxOf? p with
+  | some i => (seen, i)
+  | none => (seen ++ [p], seen.length)
+
+def sortKV (kv : List (String × Nat)) : List (String × Nat) :=
+  kv.mergeSort (fun a b => decide (a.1 ≤ b.1))
+
+def dumpRef (objs : List Obj) (seen : List Nat) (f : String) (r : Ref) : List Nat × String :=
+  match objs[r.ptr]? with
+  | some (.arr cells) =>
+    if r.cap == 0 then (seen, s!"{f}=[]0/0")
+    else
+      let (seen', k) := canon seen r.ptr
+      (seen', s!"{f}=[{",".intercalate (cells.take r.len)}]{r.len}/{r.cap}@{k}")
+  | some (.map kv) =>
+    let (seen', k) := canon seen r.ptr
+    (seen', s!"{f}=\{{",".intercalate ((sortKV kv).map (fun p => s!"{p.1}~{p.2}"))}}@{k}")
+  | none => (seen, s!"{f}=DANGLING")
+
+def dumpCfg (objs : List Obj) (seen : List Nat) (c : Cfg) : List Nat × String :=
+  let sc := c.scalars.map (fun p => s!"{p.1}={p.2}")
+  let (seen', rs) := c.refs.foldl (fun (acc : List Nat × List String) p =>
+    let (s', d) := dumpRef objs acc.1 p.1 p.2
+    (s', acc.2 ++ [d])) (seen, [])
+  (seen', s!"{c.kind};{";".intercalate (sc ++ rs)}")
+
+def dumpAll (st : State) : String :=
+  let (_, ds) := st.nodes.foldl (fun (acc : List Nat × List String) c =>
+    let (s', d) := dumpCfg st.objs acc.1 c
+    (s', acc.2 ++ [d])) ([], [])
+  if ds.isEmpty then "-" else "||".intercalate ds
+
+def pairs : List Val → List String
+  | k :: v :: rest => s!"{k}={v}" :: pairs rest
+  | _ => []
+
+def sliceVals (st : State) (c : Cfg) (f : String) : List Val :=
+  match c.getRef f with
+  | some r => match view st.objs r with
+    | .arr vs => vs
+    | _ => []
+  | none => []
+
+def guest (st : State) (i : Nat) : String :=
+  match st.nodes[i]? with
+  | none => "refuse"
+  | some c =>
+    let args := sliceVals st c "args"
+    let env := pairs (sliceVals st c "environ")
+    let fs := (c.scalars.lookup "fsConfig").getD "?"
+    s!"args=[{",".intercalate args}] env=[{",".intercalate env}] fs={fs}"
+
+def step (st : St) (args : List String) : St × String :=
+  match args with
+  | ["reset"] => ({}, "ok")
+  | "new" :: kind :: fields =>
+    match fields.mapM (fun w => do let (k, v) ← splitEq w; let i ← parseInit v; pure (k, i)) with
+    | some fs => let (st', id) := newNode st kind fs; (st', toString id)
+    | none => (st, "bad-op")
+  | "call" :: recv :: name :: rest =>
+    match parseNat recv, parseArgs rest with
+    | some r, some a =>
+      match call tbl st r name a with
+      | some (st', id) => (st', toString id)
+      | none => (st, "refuse")
+    | _, _ => (st, "bad-op")
+  | ["dump"] => (st, dumpAll st)
+  | ["guest", i] =>
+    match parseNat i with
+    | some i => (st, guest st i)
+    | none => (st, "bad-op")
+  | ["safe"] =>
+    let bad := tbl.filter (fun m => !methodSafe tbl m)
+    (st, if bad.isEmpty then "all-safe" else "unsafe:" ++ ",".intercalate (bad.map (fun m => s!"{m.recv}.{m.name}")))
+  | ["sig", recv, name] =>
+    match Wz.Gen.ConfigEffects.sigs.find? (fun s => s.recv == recv && s.name == name) with
+    | some s => (st, s!"params={",".intercalate s.params} derived={",".intercalate s.derived} flags={",".intercalate s.flags} delegate={((findMethod tbl recv name).bind (·.delegate)).getD ""}")
+    | none => (st, "unknown")
+  | ["refwriters"] =>
+    let ws := tbl.filter (fun m => ((resolve tbl m).getD []).any (fun p => p.effs.any (fun e =>
+      match e with
+      | .indexWrite .. => true
+      | .append .. => true
+      | .mapWrite .. => true
+      | _ => false)))
+    (st, ",".intercalate (ws.map (fun m => s!"{m.recv}.{m.name}")))
+  | ["methods"] => (st, ",".intercalate (tbl.map (fun m => s!"{m.recv}.{m.name}")))
+  | _ => (st, "bad-op")
 
 end Oracle.C19
